@@ -348,6 +348,49 @@ let op_xq (a : string array) : string =
     | _ -> pres r (fun b -> Printf.sprintf "%d:%s" (List.length b) (hex b)) in
   evs ^ " " ^ rs
 
+(* the clients over time (Timed.v): one raw query / a history of UDP exchanges on one socket queue.
+   arrivals: "t:hex,t:hex" or "-"; TCP peer: accept delay or "-", segments "t:hex,..." or "-", eof instant or "-" *)
+let parse_arrivals (s : string) : (n * byte list) list =
+  if s = "-" then [] else
+  List.map (fun it -> match String.split_on_char ':' it with
+      | [t; h] -> (n_of_int (int_of_string t), (if h = "" then [] else unhex h))
+      | _ -> failwith "arrival") (String.split_on_char ',' s)
+let res_line (r : (byte list) res) : string =
+  match r with
+  | Err (IoError x) -> "err:IoError(" ^ (match ni x with 1 -> "UnexpectedEof" | 2 -> "TimedOut" | k -> string_of_int k) ^ ")"
+  | _ -> pres r (fun b -> Printf.sprintf "%d:%s" (List.length b) (hex b))
+let tquery_of (a : string array) (i : int) (start : int) : tquery =
+  { tq_id = n_of_int (int_of_string a.(i)); tq_name = unhex a.(i+1); tq_type = n_of_int (int_of_string a.(i+2));
+    tq_class = n_of_int (int_of_string a.(i+3)); tq_start = n_of_int start }
+let zero_jit = (fun _ -> N0)
+let op_tq (a : string array) : string =
+  let std = (a.(0) = "std") and smol = (a.(0) = "smol") in
+  let strategy = n_of_int (match a.(1) with "tcp" -> 1 | "notcp" -> 2 | _ -> 0) in
+  let q = tquery_of a 2 (int_of_string a.(6)) in
+  let lifetime = n_of_int (int_of_string a.(7)) in
+  let qt = if a.(8) = "-" then None else Some (n_of_int (int_of_string a.(8))) in
+  let buf = n_of_int (int_of_string a.(9)) in
+  let arrs = parse_arrivals a.(10) in
+  let bytes = List.concat (List.map (fun (t, seg) -> List.map (fun b -> (t, b)) seg) (parse_arrivals a.(12))) in
+  let srv = { tp_accept = (if a.(11) = "-" then None else Some (n_of_int (int_of_string a.(11))));
+              tp_bytes = bytes; tp_eof = (if a.(13) = "-" then None else Some (n_of_int (int_of_string a.(13)))) } in
+  let (((sends, ev), r), t) = client_query_timed std smol q lifetime qt zero_jit buf strategy arrs srv in
+  abn r;
+  Printf.sprintf "S=%s EV=%s T=%d R=%s" (String.concat "," (List.map (fun x -> string_of_int (ni x)) sends))
+    (String.concat "" (List.map (fun e -> match e with EvUdpExchange -> "U" | EvTcpExchange -> "T") ev)) (ni t) (res_line r)
+(* history: client lifetime qt queue then per query: id name type class start *)
+let op_th (a : string array) : string =
+  let std = (a.(0) = "std") and smol = (a.(0) = "smol") in
+  let lifetime = n_of_int (int_of_string a.(1)) in
+  let qt = if a.(2) = "-" then None else Some (n_of_int (int_of_string a.(2))) in
+  let queue = parse_arrivals a.(3) in
+  let rec qs i = if i + 4 < Array.length a then tquery_of a i (int_of_string a.(i+4)) :: qs (i + 5) else [] in
+  let outs = udp_history std smol lifetime qt zero_jit (qs 4) queue in
+  String.concat " | " (List.map (fun ((sends, r), t) ->
+      abn r;
+      Printf.sprintf "S=%s T=%d R=%s" (String.concat "," (List.map (fun x -> string_of_int (ni x)) sends)) (ni t)
+        (match r with Ok (d, _) -> "ok:" ^ hex d | Err Timeout -> "err:Timeout" | _ -> pres r (fun _ -> "?"))) outs)
+
 (* spec side of the names stream: the code-blind RFC expansion (Spec/WireName.v) *)
 let spec_name_line (msg : byte list) (p : int) : string =
   match spec_name msg (n_of_int p) with
@@ -369,6 +412,8 @@ let dispatch (op : string) (a : string array) : string =
   | "wname" -> op_wname (unhex a.(0)) (int_of_string a.(1))
   | "query" -> op_query a
   | "xq" -> op_xq a
+  | "tq" -> op_tq a
+  | "th" -> op_th a
   | "iter" -> op_iter (unhex a.(0))
   | "rrset" -> op_rrset (int_of_string a.(0)) (unhex a.(1))
   | _ -> "BADOP(" ^ op ^ ")"
